@@ -261,7 +261,7 @@ def run_correspondence(mod, cases, obss, shard=300):
 def model_obs_text(mod, case, obs=None):
     """Ask Coq for the model's observation of one case (text, for replay files)."""
     fn = getattr(mod, "COQ_MODEL_OBS", None)
-    if not fn:
+    if not fn or not model_applies(mod, case):
         return None
     d = CASES / mod.ID
     d.mkdir(parents=True, exist_ok=True)
